@@ -14,7 +14,7 @@
    Times are integers in units of 1/65536 s (or beat).  Instructions are uniform records
    [op, a, b, c, s, nk, na]:  Y a=delta | P s=child c=clock("" inherit) | S a=lat b=kind(0 num,1 None) s=tag
    nk/na nested bundle (nk 0 none,1 num,2 None) | M s=tag | T c=clock a=num b=den | E raise
-   | X s=routine (pause) | Z s=routine (resume) | K a=seed s=seed name | D (draw)
+   | X s=routine (pause) | Z s=routine (resume) | K a=seed s=seed name | KC c=child a=seed s=name | D (draw)
    main only: U a=lat b=kind s=tag c=delay: a send from a plain thread after `delay` (RT; in NRT an outside send)
               IN a=timetag time b=kind(0 timed, 1 immediate, 2 plain message) s=tag: an incoming datagram (RT)  *)
 EXTENDS Naturals, Integers, Sequences, FiniteSets, TLC, QueueOps
@@ -124,6 +124,10 @@ Exec(st, prog, mode, r, lt, p) ==
             LET g == i.s IN      \* generators are named by their seed
             Exec([adv(st) EXCEPT !.rt = Put(adv(st).rt, r, [adv(st).rt[r] EXCEPT !.gen = g]),
                                  !.draws = Put(st.draws, g, 0)], prog, mode, r, lt, p)
+      [] i.op = "KC" ->     \* create child c and give it its own seed before it plays (what Pseed does)
+            LET s1 == adv(st) IN
+            Exec([s1 EXCEPT !.rt = Put(s1.rt, i.c, [s1.rt[i.c] EXCEPT !.gen = i.s]), !.draws = Put(st.draws, i.s, 0)],
+                 prog, mode, r, lt, p)
       [] i.op = "D" ->
             LET g == me.gen
                 k == st.draws[g]
